@@ -104,3 +104,23 @@ class AtomicModel:
                     du = du or DefUse(body)
                     out.append((bid, t, receiver_key(body, du, t["args"][0]), m))
         return out
+
+
+def role_field(facts, adt, accessor, default):
+    """The private atomic field of `adt` that plays a role, found through the accessor that defines the role instead of
+    through the field's name (a private field may be renamed freely): the field `accessor` performs an atomic operation
+    on.  `default` (the name in the reference tree) is used when the accessor no longer exists or touches no atomic of
+    `adt`; the rule then behaves as before and a renamed field shows up as a missing writer."""
+    from .flow import DefUse
+    for b in facts.by_npath.get(accessor, []):
+        du = DefUse(b)
+        found = []
+        for (_x, t) in b.calls():
+            c = norm(t.get("callee") or "")
+            if c.startswith("std::sync::atomic::Atomic::") and t["args"]:
+                k = receiver_key(b, du, t["args"][0])
+                if k and k[0] == adt:
+                    found.append(k[1])
+        if len(set(found)) == 1:
+            return found[0]
+    return default
